@@ -667,3 +667,109 @@ theorem history_inv (log : List Version) (hne : log ≠ []) (hwf : ∀ v ∈ log
       exact ⟨good_Bi _ _ (hwf v (by simp)), SpecEq.refl _, fun _ h => h⟩
     have := inv_foldl rest (Bi v.ts v.stamp) [v] h0 (by simpa using logRows_sorted _ hs)
     simpa [history_eq, List.foldl_cons, mergeStep, biMerge] using this
+
+/-! ### `what = 0`: the first published value -/
+
+def firstRows (rows : Store) (asof : Option Int) : TS :=
+  (dates (rows.filter (vis asof))).map fun d => (d, firstVal ((group d rows).filter (vis asof)))
+
+theorem specFirst_eq (log : List Version) (asof : Option Int) : specFirst log asof = firstRows (logRows log) asof := by
+  cases asof with
+  | none => simp only [specFirst, firstRows, filter_vis_none, group_filter]
+  | some T => simp only [specFirst, firstRows, group_filter]; rfl
+
+theorem firstVal_sortedLt (c : Store) (h : SortedLt c) : firstVal c = c.head?.bind (·.val) := by
+  cases c with
+  | nil => rfl
+  | cons r rest =>
+    have : (r :: rest).filter (·.stamp == r.stamp) = [r] := by
+      simp only [List.filter_cons, beq_self_eq_true, if_true, List.cons.injEq, true_and]
+      rw [List.filter_eq_nil_iff]
+      intro x hx
+      have := List.rel_of_pairwise_cons h hx
+      simp; omega
+    simp [firstVal, this, lastVal]
+
+theorem biRead_first (st : Store) (hg : Good st) (asof : Option Int) : biRead st asof 0 = firstRows st asof := by
+  rw [biRead_eq]
+  unfold firstRows
+  rw [dates_sortStamp]
+  apply List.map_congr_left
+  intro d _
+  have hs : SortedLt ((group d st).filter (vis asof)) := ((hg d).1).sublist List.filter_sublist
+  rw [group_sortStamp, group_filter, sortStamp_of_sorted hs.le, firstVal_sortedLt _ hs]
+  simp only [nthVal, nth_zero]
+
+theorem down_le (s : Int) : Down (fun r => decide (r.stamp ≤ s)) := by
+  intro r r' h; simp only [decide_eq_true_eq]; omega
+
+theorem head_stamp_le {x y : Row} {X Y : Store} (hY : SortedLe (y :: Y))
+    (h : ∀ p, Down p → accVal Option.none ((x :: X).filter p) = accVal Option.none ((y :: Y).filter p)) :
+    y.stamp ≤ x.stamp := by
+  have h1 := h _ (down_le x.stamp)
+  have hne : (x :: X).filter (fun r => decide (r.stamp ≤ x.stamp)) ≠ [] := by simp [List.filter_cons]
+  have hne' : (y :: Y).filter (fun r => decide (r.stamp ≤ x.stamp)) ≠ [] := by
+    intro hc; rw [hc] at h1; exact hne (accVal_eq_none.mp h1)
+  by_cases hy : y.stamp ≤ x.stamp
+  · exact hy
+  · exfalso; apply hne'
+    rw [List.filter_eq_nil_iff]
+    intro r hr
+    have : y.stamp ≤ r.stamp := by
+      rcases List.mem_cons.mp hr with rfl | hr
+      · omega
+      · exact List.rel_of_pairwise_cons hY hr
+    simp only [decide_eq_true_eq]; omega
+
+theorem firstVal_sortedLe (x : Row) (X : Store) (h : SortedLe (x :: X)) :
+    firstVal (x :: X) = lastVal ((x :: X).filter (fun r => decide (r.stamp ≤ x.stamp))) := by
+  show lastVal ((x :: X).filter (·.stamp == x.stamp)) = _
+  congr 1
+  apply List.filter_congr
+  intro r hr
+  have : x.stamp ≤ r.stamp := by
+    rcases List.mem_cons.mp hr with rfl | hr
+    · omega
+    · exact List.rel_of_pairwise_cons h hr
+  rw [Bool.eq_iff_iff]; simp only [beq_iff_eq, decide_eq_true_eq]; omega
+
+theorem firstVal_congr (X Y : Store) (hX : SortedLe X) (hY : SortedLe Y)
+    (h : ∀ p, Down p → accVal Option.none (X.filter p) = accVal Option.none (Y.filter p)) : firstVal X = firstVal Y := by
+  have htrue : Down (fun _ => true) := fun _ _ _ _ => rfl
+  have ft : ∀ l : Store, l.filter (fun _ => true) = l := by intro l; simp
+  cases X with
+  | nil =>
+    have := h _ htrue
+    simp only [ft] at this
+    rw [accVal_eq_none.mp this.symm]
+  | cons x X =>
+    cases Y with
+    | nil =>
+      have := h _ htrue
+      simp only [ft] at this
+      exact absurd (accVal_eq_none.mp this) (by simp)
+    | cons y Y =>
+      have e : x.stamp = y.stamp :=
+        Int.le_antisymm (head_stamp_le hX (fun p hp => (h p hp).symm)) (head_stamp_le hY h)
+      rw [firstVal_sortedLe x X hX, firstVal_sortedLe y Y hY, lastVal_eq_getD, lastVal_eq_getD, ← e,
+        h _ (down_le x.stamp)]
+
+theorem firstRows_congr {a b : Store} (h : SpecEq a b) (ha : ∀ d, SortedLe (group d a)) (hb : ∀ d, SortedLe (group d b))
+    (asof : Option Int) : firstRows a asof = firstRows b asof := by
+  unfold firstRows
+  have hd : dates (a.filter (vis asof)) = dates (b.filter (vis asof)) := by
+    apply dates_congr
+    intro d
+    rw [← group_ne_nil, ← group_ne_nil, group_filter, group_filter, Ne, Ne, ← accVal_eq_none, ← accVal_eq_none,
+      h d _ (vis_down asof)]
+  rw [hd]
+  apply List.map_congr_left
+  intro d _
+  congr 1
+  apply firstVal_congr _ _ ((ha d).sublist List.filter_sublist) ((hb d).sublist List.filter_sublist)
+  intro p hp
+  rw [List.filter_filter, List.filter_filter]
+  apply h d
+  intro r r' hrr hr
+  simp only [Bool.and_eq_true] at hr ⊢
+  exact ⟨hp r r' hrr hr.1, vis_down asof r r' hrr hr.2⟩
